@@ -1,6 +1,25 @@
 """C17 — builder transformations keep builders well-typed and do only what they document."""
 import collections, json, os, re, sys
 from verifkit.core import *
+import time
+import verifkit.core as _core
+
+_orig_drv = _core.drv
+
+
+def _drv_retry(lines, timeout=1800):
+    """the driver binary is re-linked by `lake build drv` of concurrently running checks: retry"""
+    for _ in range(8):
+        try:
+            return _orig_drv(lines, timeout)
+        except (FileNotFoundError, PermissionError, OSError):
+            time.sleep(8)
+            lake_build(("drv",))
+    return _orig_drv(lines, timeout)
+
+
+_core.drv = _drv_retry
+drv = _drv_retry
 
 THEOREMS = ["Cog.Builder." + t for t in [
     "C17_builder_omit_removes", "C17_builder_rename_only_renames", "C17_builder_frame_inplace",
